@@ -18,9 +18,6 @@ import common
 import stackgen
 from common import enc
 
-KINDS_D16 = ("order", "cycle-not-reported", "cycle-false-alarm")
-
-
 # ------------------------------------------------------------------ implementation driver (in a child)
 
 def _node(p):
@@ -383,17 +380,12 @@ def oracle(spec, impl):
 
 
 def two_versions_in_closure(spec, root):
+    """the closure of root (root included, stubs count) holds two products of one name: where the pinned tree
+    went wrong (D16, repaired); kept for the input-distribution counters"""
     g = ref_graph(spec)
     nodes = reach_plus(g, tuple(root)) | {tuple(root)}
     names = [n for n, _ in nodes]
     return len(names) != len(set(names))
-
-
-def m_two_versions(f):
-    """open finding D16: topological depths are kept per product name"""
-    c = f["input"]
-    return f["kind"] in KINDS_D16 and "root" in c.get("focus", {}) and \
-        two_versions_in_closure(c["spec"], c["focus"]["root"])
 
 
 # ------------------------------------------------------------------ comparison
@@ -485,11 +477,14 @@ def compare_one(ctx, spec, impl, model, indep_edges_ok=True):
         feats.append("version-is-prefix-of-another")
     for f in feats:
         ctx.bump("feature/" + f)
-    # how often the hypotheses of build_order_safe (one version per name, no cycle in the closure) hold
+    # how often the hypothesis of build_order_safe (no cycle in the closure) holds, and how often such a closure
+    # holds two versions of one name (the case the pinned tree got wrong: D16)
     for a in g:
         nodes = reach_plus(g, a) | {a}
-        ok = len(set(n for n, _ in nodes)) == len(nodes) and not any(x in reach_plus(g, x) for x in nodes)
-        ctx.bump("roots/build-order-hypotheses-hold" if ok else "roots/outside-build-order-hypotheses")
+        ok = not any(x in reach_plus(g, x) for x in nodes)
+        ctx.bump("roots/build-order-hypotheses-hold" if ok else "roots/closure-has-a-cycle")
+        if len(set(n for n, _ in nodes)) != len(nodes):
+            ctx.bump("roots/two-versions-in-closure" + ("" if ok else "-and-a-cycle"))
     ctx.bump("products/%d" % len(spec["products"]))
     return fails
 
@@ -576,7 +571,6 @@ def corpus_specs():
 
 
 def setup_ctx(ctx):
-    ctx.matchers["c13.two_versions_in_closure"] = m_two_versions
     ctx.rule = ("random product graphs of 4-9 product names (shapes chain, diamond, tree with shared sub-trees, dag, "
                 "two versions of one product reached by one root, cycles and self-dependencies, unresolved dependencies, "
                 "a directed family and 30% respelled graphs whose version names are prefixes of one another (1.0/1.0.1, 1/10, 1.0/1.0-rc1); "
